@@ -321,6 +321,11 @@ def programs(draw, discrete=False, max_sites=14, combinators=("call", "vmap", "s
         fn, sites = _gen_fn(draw, cfg, {k: v for k, v in plain.items()}, {}, True, draw(st.integers(1, 2)), allow)
         fns["S0"], steps["S0"] = fn, {"sites": sites}
         order.append("S0")
+        if draw(st.integers(0, 2)) == 0 and sites <= 3:
+            # a step function that itself scans / vectorizes (Scan of a function that contains a Scan or a Vmap)
+            fn1, sites1 = _gen_fn(draw, cfg, {k: v for k, v in plain.items() if not v["kw"] and not v.get("det")}, {"S0": steps["S0"]}, True, 1, ["scan", "scan", "vmap", "vdist"])
+            fns["S1"], steps["S1"] = fn1, {"sites": sites1}
+            order.append("S1")
     # mid-level function (depth 2)
     avail = [c for c in combinators if c != "cond" or cfg["cond_pairs"]]
     avail = [c for c in avail if c != "scan" or steps]
